@@ -7,7 +7,7 @@ import warnings
 from hypothesis import strategies as st
 
 from .. import fakedul as fd, refpdu
-from ..common import Violation, HarnessError, hyp_search, parallel, lib_frame
+from ..common import Violation, HarnessError, hyp_search, parallel, lib_frame, quiet_warnings
 
 LEVEL = 'exploration'
 
@@ -388,7 +388,7 @@ def run_exhaustive_replies(ctx):
 
 
 def shard(ctx, job):
-    warnings.simplefilter('ignore')
+    quiet_warnings()
     run_random(ctx, job['n'], job['big'])
 
 
@@ -439,7 +439,7 @@ def run_builtin(ctx):
 
 
 def run(ctx):
-    warnings.simplefilter('ignore')
+    quiet_warnings()
     ctx.rule = ('Hypothesis: sequences of 1-6 add_scu/add_scp calls on ClientAE/AE (never bound) with class lists '
                 'from a pool of 200 synthetic UIDs, disjoint, overlapping across calls and repeated inside a call, optionally with an earlier association request between the calls (answered with any mix of result codes) with supported_ts changed between two calls and with entries deleted from context_def_list between two calls, small and with totals around and '
                 'beyond 128; replies with every mix of result codes 0-4, syntax choices, in and out of proposal '
@@ -457,7 +457,7 @@ def run(ctx):
 
 
 def replay(case):
-    warnings.simplefilter('ignore')
+    quiet_warnings()
     if 'builtin' in case:
         from ..common import Ctx
         sub = Ctx('C11', 'quick', 1)
